@@ -438,3 +438,42 @@ def exc_to_error(E):
     E.prove('error_frame:ERROR_on_the_given_stream', is_frame(fr, 'ErrorFrame') and E.getattr(fr, 'stream_id') is sid)
     E.prove('error_frame:code', E.getattr(fr, 'error_code') is (codes['REJECTED_SETUP'] if kind == 0 else codes['APPLICATION_ERROR']))
     E.prove('error_frame:data_is_bytes[so that the frame can be serialised]', is_byteslike(E.getattr(fr, 'data')))
+
+
+# --------------------------------------------------------------------------- K-SOCK: the emission methods the handlers rely on
+
+@harness('e.send_payload_error_complete', ['C01', 'C08', 'C05'], functions=[BASE + '.send_payload', BASE + '.send_error', BASE + '.send_complete',
+                                                                         BASE + '.get_fragment_size_bytes', 'rsocket/frame_builders.py::to_payload_frame'])
+def send_methods(E):
+    sock, table, ctable = mk_endpoint(E)
+    fs = E.fresh_int('fs', 64) if E.path.choice(2, 'fragmentation') else None
+    sock.attrs['_fragment_size_bytes'] = fs
+    sent = []
+    E.stubs[BASE + '.send_frame'] = lambda E_, f, a, k: sent.append(a[1])
+    sid = E.fresh_int('sid', 1, 0x7FFFFFFF)
+    which = E.path.choice(3, 'method')
+    if which == 0:
+        data, md = E.fresh_bytes('data'), E.fresh_bytes('md')
+        p = E.call(E.lookup('rsocket/payload.py::Payload'), [data, md])
+        comp, nxt = E.fresh_bool('complete'), E.fresh_bool('is_next')
+        E.call(E.getattr(sock, 'send_payload'), [sid, p], dict(complete=comp, is_next=nxt))
+        E.cover('payload')
+        E.prove('send_payload:exactly_one_PAYLOAD_frame', len(sent) == 1 and is_frame(sent[0], 'PayloadFrame'))
+        f = sent[0]
+        E.prove('send_payload:own_stream_same_bytes', E.getattr(f, 'stream_id') is sid and E.getattr(f, 'data') is data and E.getattr(f, 'metadata') is md)
+        E.prove('send_payload:flags', E.getattr(f, 'flags_complete') is comp and E.getattr(f, 'flags_next') is nxt)
+        E.prove('send_payload:configured_fragment_size', E.getattr(f, 'fragment_size_bytes') is fs)
+    elif which == 1:
+        codes = E.lookup('rsocket/error_codes.py::ErrorCode').members
+        ex = E.make_exc('ValueError', 'boom')
+        E.call(E.getattr(sock, 'send_error'), [sid, ex])
+        E.cover('error')
+        E.prove('send_error:exactly_one_ERROR_frame_on_the_stream', len(sent) == 1 and is_frame(sent[0], 'ErrorFrame') and E.getattr(sent[0], 'stream_id') is sid)
+        E.prove('send_error:application_error_code', E.getattr(sent[0], 'error_code') is codes['APPLICATION_ERROR'])
+    else:
+        E.call(E.getattr(sock, 'send_complete'), [sid])
+        E.cover('complete')
+        f = sent[0] if sent else None
+        E.prove('send_complete:one_empty_PAYLOAD_complete_without_next', len(sent) == 1 and is_frame(f, 'PayloadFrame') and E.getattr(f, 'stream_id') is sid
+                and E.getattr(f, 'flags_complete') is True and E.getattr(f, 'flags_next') is False and E.getattr(f, 'data') is None
+                and E.getattr(f, 'metadata') is None)
